@@ -522,6 +522,18 @@ Arguments key_v0 {arg}.
 Arguments key_v1 {arg}.
 Arguments ckey_eqb {arg}.
 
+(* well-formed renderings: the domain on which LookupOptions.String() determines the fields it prints *)
+Definition no_comma (s : str) : bool := forallb (fun b => negb (Byte.eqb b x2c)) s.
+
+(* an anchor rendering contains no comma and is not the text "nil" (RFC3339 renderings satisfy both) *)
+Definition anchor_wf (o : option str) : bool :=
+  match o with None => true | Some s => no_comma s && negb (str_eqb s s_nil) end.
+(* a filter rendering is not the text "<nil>" (a %+v struct rendering starts with an opening brace) *)
+Definition filter_wf (o : option str) : bool :=
+  match o with None => true | Some s => negb (str_eqb s s_pnil) end.
+Definition lo_wf (lo : lopts) : bool :=
+  anchor_wf (lo_lower lo) && anchor_wf (lo_upper lo) && filter_wf (lo_filter lo).
+
 (* ------------------------------------------------------------------------------------------------------------ *)
 (* A tiny concrete wrapped store (one graph holding a set of numbered triples; listing = ascending order with the
    paging rule of storage/memory's checker; Exist; add / remove).  Used for the executable witnesses and for
